@@ -212,16 +212,25 @@ coap_rebuild_pdu_for_proxy(coap_pdu_t *pdu) {
   coap_opt_t *option;
   uint8_t option_value_buffer[15];
   coap_optlist_t *optlist_chain = NULL;
+  coap_binary_t *proxy_uri = NULL;
 
   if ((option =
            coap_check_option(pdu, COAP_OPTION_PROXY_URI, &opt_iter)) == NULL)
     return 1;
 
-  /* Need to break down into the component parts, but keep data safe */
+  /*
+   * Need to break down into the component parts, but keep data safe:
+   * the parts of uri point into the string that is split, and the option
+   * is removed from (and others are moved within) the PDU below.
+   */
   memset(&uri, 0, sizeof(uri));
+  proxy_uri = coap_new_binary(coap_opt_length(option));
+  if (proxy_uri == NULL)
+    goto error;
+  memcpy(proxy_uri->s, coap_opt_value(option), proxy_uri->length);
 
-  if (coap_split_proxy_uri(coap_opt_value(option),
-                           coap_opt_length(option),
+  if (coap_split_proxy_uri(proxy_uri->s,
+                           proxy_uri->length,
                            &uri) < 0 || uri.scheme >= COAP_URI_SCHEME_LAST) {
     coap_log_warn("Proxy URI '%.*s' not decodable\n",
                   coap_opt_length(option),
@@ -266,10 +275,12 @@ coap_rebuild_pdu_for_proxy(coap_pdu_t *pdu) {
     goto error;
 
   coap_delete_optlist(optlist_chain);
+  coap_delete_binary(proxy_uri);
   return 1;
 
 error:
   coap_delete_optlist(optlist_chain);
+  coap_delete_binary(proxy_uri);
   return 0;
 }
 
